@@ -310,7 +310,8 @@ fn garbage_case(rng: &mut Rng, ctx: &mut Ctx) {
         }
         2 => {
             // google.rpc.Status { details: [Any{type_url: known, value: garbage}] }
-            let url = *rng.pick(&[RetryInfo::TYPE_URL, BadRequest::TYPE_URL, ErrorInfo::TYPE_URL, Help::TYPE_URL, DebugInfo::TYPE_URL, "type.googleapis.com/unknown.Type"]);
+            let url = *rng.pick(&[RetryInfo::TYPE_URL, BadRequest::TYPE_URL, ErrorInfo::TYPE_URL, Help::TYPE_URL, DebugInfo::TYPE_URL, "type.googleapis.com/unknown.Type",
+                "", "/", "google.rpc.RetryInfo", "\u{e9}t\u{e9}", "x/google.rpc.BadRequest", "type.googleapis.com/", "//"]);
             let garbage = rng.bytes_range(0, 30);
             let mut any = vec![0x0a];
             put_varint(&mut any, url.len() as u64);
